@@ -10,7 +10,7 @@
    (en: Serve + worker / ServeConn), every admission outcome (ad) and every client behaviour (rd: the bytes, how
    they are chunked over reads, and whether the client closes or goes silent). *)
 From FH Require Import Model.Base Gen.GenC10 Model.ConnOpt Model.Serve Model.ServeInst Spec.ServeSpec
-     Proof.ServeProof Proof.ServeInstProof Check.ServeCheck.
+     Proof.ServeProof Proof.ServeInstProof Check.ServeCheck Check.C14Check Gen.GenC14.
 Open Scope nat_scope.
 
 (* The hook calls of a connection form a word of  New (Active Idle)* Active? (Closed | Hijacked) — or no call
@@ -66,3 +66,15 @@ Example C14_ex_rejected :
   sts (run ViaServeConn RejectConcurrency (ex_cfg false) [] [] None [ex_req "1"] Eof) = []
   /\ sts (run ViaServe RejectConcurrency (ex_cfg false) [] [] None [ex_req "1"] Eof) = [StNew; StClosed].
 Proof. vm_compute. split; reflexivity. Qed.
+
+(* the ConnState numbering of server.go (regenerated each run) is the one the harness encoding is decoded with:
+   the five constants are distinct and st / state_code are inverse on them *)
+Example C14_ex_state_codes :
+  map st [StateNew; StateActive; StateIdle; StateHijacked; StateClosed] = [StNew; StActive; StIdle; StHijacked; StClosed]
+  /\ map state_code [StNew; StActive; StIdle; StHijacked; StClosed] = [0; 1; 2; 3; 4]%Z.
+Proof. vm_compute. split; reflexivity. Qed.
+(* Shutdown closes the connection as idle just when the second request's first byte arrives: no second Active *)
+Example C14_ex_gone_at_start :
+  sts (run_gone ViaServe Admit (ex_cfg false) [] (Some 2%N) [ex_req "1"; ex_req "2"] Eof)
+  = [StNew; StActive; StIdle; StClosed].
+Proof. vm_compute. reflexivity. Qed.
